@@ -274,6 +274,8 @@ class World:
             self._emit_type_urls(out)
         if self.cfg.get('wire_compat') and not reach:
             self._emit_wire_compat(out)
+        if self.cfg.get('storage_keys') and not reach:
+            self._emit_storage_keys(out, mods)
         # module tree
         tree = {}
         for m in mods:
@@ -448,6 +450,102 @@ class World:
         if n == 0 or textual != n or 'macro_rules!' in open(tup).read():
             raise Inconclusive(f'unsupported: {tu["file"]} registers type URLs in a way the extractor cannot read '
                                f'({n} literal impls read, {textual} `impl TypeUrl for` in the text, macro: {"macro_rules!" in open(tup).read()})')
+
+    def _emit_storage_keys(self, out, mods):
+        """The abstract store gives every storage handle its own component; cw-storage-plus only does so when the
+        namespace strings differ.  One ground obligation per pair of handles declared in the world's modules (plus
+        the fixed namespaces of dependencies listed in world.json): the two literals are different strings.
+        Also the closed-world guard for the type-keyed shim: two plain Items (or Maps) of one value type would be
+        conflated by the abstract store -> undecided."""
+        sk = self.cfg['storage_keys']
+        labs = ' '.join(f'[{p}.storage-keys-distinct]' for p in sk['labels'])
+        handles = []   # (display name, namespace literal text incl. quotes)
+        kinds = r'(?:Item|Map|Admin|IndexedMap|UniqueIndex|MultiIndex|SnapshotMap|SnapshotItem|Deque)'
+        typed = {}
+        for m in mods:
+            if 'file' not in m or m.get('shim'):
+                continue
+            if not m['file'].startswith(self.cfg['crate']):
+                continue
+            path = os.path.join(REPO, m['file'])
+            text = open(path).read()
+            # strip comments
+            text_nc = re.sub(r'//[^\n]*', lambda mm: ' ' * len(mm.group(0)), text)
+            for mm in re.finditer(r'\b(' + kinds + r')\s*(?:::\s*<[^;{}]*?>)?\s*::\s*new\s*\(', text_nc):
+                # balanced argument list
+                i = mm.end()
+                depth = 1
+                while i < len(text_nc) and depth:
+                    ch = text_nc[i]
+                    if ch == '"':
+                        j = i + 1
+                        while text_nc[j] != '"':
+                            j += 2 if text_nc[j] == '\\' else 1
+                        i = j
+                    elif ch in '([{':
+                        depth += 1
+                    elif ch in ')]}':
+                        depth -= 1
+                    i += 1
+                args = text_nc[mm.end():i - 1]
+                # literals of nested handle constructors belong to those
+                nested = [(x.start(), x.end()) for x in re.finditer(kinds + r'\s*(?:::\s*<[^;{}]*?>)?\s*::\s*new\s*\(', args)]
+                top = args
+                if nested:
+                    top = args[:nested[0][0]]
+                lits = re.findall(r'"(?:[^"\\]|\\.)*"', top)
+                if mm.group(1) in ('UniqueIndex', 'MultiIndex'):
+                    lits = re.findall(r'"(?:[^"\\]|\\.)*"', args)[-2:] if mm.group(1) == 'MultiIndex' else re.findall(r'"(?:[^"\\]|\\.)*"', args)[-1:]
+                if not lits:
+                    raise Inconclusive(f'unsupported: the namespace of a storage handle in {m["file"]} is not a string literal: {mm.group(0)}{args[:60]}')
+                line = text_nc.count('\n', 0, mm.start()) + 1
+                # name: the const / let it initialises, else file:line
+                pre = text_nc[max(0, mm.start() - 200):mm.start()]
+                nm = re.findall(r'(?:const|static|let)\s+(?:mut\s+)?(\w+)\s*(?::[^=;]*)?=\s*$', pre)
+                fld = re.findall(r'(\w+)\s*:\s*$', pre)
+                name = (nm[-1] if nm else fld[-1] if fld else mm.group(1)) + f'@{os.path.basename(m["file"])}:{line}'
+                cls = 'raw' if mm.group(1) in ('Item', 'Admin', 'SnapshotItem') else 'prefixed'
+                for l in lits[:1] if mm.group(1) != 'MultiIndex' else lits:
+                    handles.append((name, l, cls))
+            for it in self.index[path]['items']:
+                if it['kind'] == 'const':
+                    mt = re.match(r'^(Item|Map)\s*<(.*)>$', it['ty'].strip(), re.S)
+                    if mt:
+                        vt = re.sub(r'\s+', '', mt.group(2).split(',')[-1])
+                        typed.setdefault((mt.group(1), vt), []).append(it['name'])
+        dup = {k: v for k, v in typed.items() if len(v) > 1}
+        if dup:
+            raise Inconclusive('unsupported: storage handles of one value type cannot be told apart by the abstract store: ' +
+                               '; '.join(f'{k[0]}<..{k[1]}>: {", ".join(v)}' for k, v in dup.items()))
+        for nm, lit in sk.get('extra', {}).items():
+            handles.append((nm, rust_str(lit), 'raw'))
+        if len(handles) < sk.get('min_handles', 2):
+            raise Inconclusive(f'lost anchor: only {len(handles)} storage handles found (expected at least {sk.get("min_handles", 2)})')
+        out.w('\n// ---- generated: storage namespaces are pairwise distinct ----\npub mod storage_key_obligations {\nuse vstd::prelude::*;\nverus! {\n')
+        n = 0
+        for i in range(len(handles)):
+            for j in range(i + 1, len(handles)):
+                (na, la, ca), (nb, lb, cb) = handles[i], handles[j]
+                if ca != cb:
+                    # an Item's key is its raw namespace, a Map's keys start with the 2-byte length of the namespace:
+                    # handles of different encodings cannot collide for namespaces of printable text
+                    continue
+                va, vb = json.loads(la), json.loads(lb)   # plain literals only (no escapes beyond JSON's)
+                hint = ''
+                if len(va) != len(vb):
+                    hint = f'assert({la}@.len() != {lb}@.len());'
+                else:
+                    k = next((k for k in range(len(va)) if va[k] != vb[k]), None)
+                    if k is not None:
+                        hint = f'assert({la}@[{k}] != {lb}@[{k}]);'
+                n += 1
+                ida = re.sub(r'\W', '_', na.split('@')[0])
+                idb = re.sub(r'\W', '_', nb.split('@')[0])
+                out.w(f'\n// {labs}  ({na} vs {nb})\npub proof fn storage_key_{n}_{ida}__{idb}()\n'
+                      f'    ensures {la}@ != {lb}@\n'
+                      f'{{ reveal_strlit({la}); reveal_strlit({lb}); {hint} }}\n')
+        out.w('} // verus!\n}\n')
+        self.generated_storage_keys = {'handles': [f'{a} = {b} ({c})' for a, b, c in handles], 'pairs': n}
 
     def _emit_wire_compat(self, out):
         """C20, wire compatibility: for every prost message (struct) and oneof (enum) of the bindings that an
@@ -1261,7 +1359,7 @@ def assemble(world_name, features=(), outdir=None, force_stub=()):
     meta = {'world': world_name, 'features': sorted(features), 'fns': fmap_main, 'reach_fns': w2.fnmap,
             'degraded': w.degraded,
             'counters': counters, 'uncontracted': w.uncontracted, 'stubs': w.stubs, 'lemma_twins': w2.lemma_twins,
-            'generated': {'type_urls': getattr(w, 'generated_type_urls', None), 'wire_compat': getattr(w, 'generated_wire', None)},
+            'generated': {'type_urls': getattr(w, 'generated_type_urls', None), 'wire_compat': getattr(w, 'generated_wire', None), 'storage_keys': getattr(w, 'generated_storage_keys', None)},
             'unit_sha256': sha(main)}
     json.dump(meta, open(os.path.join(outdir, 'map.json'), 'w'), indent=1)
     return outdir, meta
